@@ -329,16 +329,27 @@ class Lin:
             else:
                 self.env[name] = N if (cur not in (K, Z) or k not in (K, Z)) else K
         elif isinstance(s, ast.Return):
-            self.returns.append((s, self.kind(s.value) if s.value is not None else K))
+            k_ = self.kind(s.value) if s.value is not None else K
+            if getattr(self, "dep_depth", 0) > 0 or getattr(self, "after_dep_return", False):
+                k_ = N if k_ in (L, A) else k_   # which expression is returned depends on the input's dtype/values: a piecewise map
+                self.notes.append((s, "the returned expression is selected by the input's dtype/values"))
+            self.returns.append((s, k_))
         elif isinstance(s, ast.Expr):
             self.kind(s.value)
         elif isinstance(s, ast.If):
-            dep = self.value_dependent(s.test)
+            dep = self.value_dependent(s.test) and not self._widening_only(s)
             e0 = dict(self.env)
+            if dep:
+                self.dep_depth = getattr(self, "dep_depth", 0) + 1
+            n_ret0 = len(self.returns)
             self.block(s.body)
             e1 = self.env
             self.env = dict(e0)
             self.block(s.orelse)
+            if dep:
+                self.dep_depth -= 1
+                if len(self.returns) > n_ret0:
+                    self.after_dep_return = True   # later returns are reached only for the other kind of input
             out = {}
             for k in set(e1) | set(self.env):
                 a, b = e1.get(k), self.env.get(k)
@@ -368,10 +379,36 @@ class Lin:
                 self.block(h.body)
             self.block(s.finalbody)
 
+    def _widening_only(self, s):
+        """`if dtype != buf.dtype: return buf.astype(dtype)` with dtype = result_type(buf, ...): both outcomes hold the same values (a cast
+        to a common, wider type), so the choice does not make the map piecewise"""
+        wide = set()
+        for n in ast.walk(self.f.node):
+            if isinstance(n, ast.Assign) and len(n.targets) == 1 and isinstance(n.targets[0], ast.Name) and isinstance(n.value, ast.Call) \
+                    and unparse(n.value.func).split(".")[-1] == "result_type":
+                wide.add((n.targets[0].id, tuple(x.id for x in n.value.args if isinstance(x, ast.Name))))
+        stmts = list(s.body) + list(s.orelse)
+        if not stmts:
+            return False
+        for st in stmts:
+            if not isinstance(st, ast.Return) or st.value is None:
+                return False
+            v = st.value
+            if isinstance(v, ast.Name):
+                continue
+            if isinstance(v, ast.Call) and isinstance(v.func, ast.Attribute) and v.func.attr == "astype" and isinstance(v.func.value, ast.Name) \
+                    and len(v.args) == 1 and isinstance(v.args[0], ast.Name) and any(v.args[0].id == d and v.func.value.id in srcs for d, srcs in wide):
+                continue
+            return False
+        return True
+
     def value_dependent(self, test):
         """does the test read the *values or dtype* of something that depends on the operator input?  (shape, ndim, device, len() and
         the array module are fixed by the operator's advertised shapes / placement and do not count)"""
         def walk(e, shielded):
+            if isinstance(e, ast.Compare) and len(e.ops) == 1 and isinstance(e.ops[0], (ast.Is, ast.IsNot)) and isinstance(e.comparators[0], ast.Constant) \
+                    and e.comparators[0].value is None:
+                return False   # `buf is None`: whether a buffer exists yet, not what it holds
             if isinstance(e, ast.Attribute):
                 if e.attr in ("shape", "ndim", "size", "device", "xp"):
                     return False
